@@ -40,6 +40,8 @@ func runC18(c *Ctx) {
 	r.Rule("R9-request-host-verbatim", "the host the cookie domain is chosen for is the X-Forwarded-Host value or req.Host itself: GetRequestHost returns one of the two unmodified", 1)
 	r.Rule("R10-size-bound", "the session cookie is sent unsplit only where the length of its whole Set-Cookie line was found within the threshold (<= 4096); every split part was measured the same way (shared with C10.R5, round 7)", 3)
 	runC10R5(c, "R10-size-bound")
+	r.Rule("R11-forwarded-host-only-through-accessor", "X-Forwarded-Host is read only by the guarded accessor GetRequestHost: no middleware inspects, rewrites or drops it before the cookie domain is chosen from it (shared with C16.R1, round 8)", 8)
+	c.R.WithAlias(map[string]string{"R1-header-readers": "R11-forwarded-host-only-through-accessor"}, func() { runC16Body(c) })
 	r.Rule("R5-domain-order", "validation sorts domains longest-first; the list is never reordered or written afterwards", 4)
 
 	mk := c.Fn("R1-single-constructor", "pkg/cookies.MakeCookieFromOptions")
